@@ -20,6 +20,13 @@ struct Layout {
 
 std::vector<int> alphabet(Rng& r, size_t n) {
   std::set<int> s;
+  if (n <= 8 && r.chance(0.25)) {  // narrow range: the same byte values recur at different levels of the tree
+    const int lo = r.chance(0.5) ? 0 : static_cast<int>(r.below(240));
+    while (s.size() < n) s.insert(lo + static_cast<int>(r.below(n + 2)));
+    std::vector<int> v(s.begin(), s.end());
+    for (size_t i = v.size(); i > 1; i--) std::swap(v[i - 1], v[r.below(i)]);
+    return v;
+  }
   if (r.chance(0.3)) s.insert(0x00);
   if (r.chance(0.3)) s.insert(0xFF);
   while (s.size() < n) s.insert(static_cast<int>(r.below(256)));
@@ -44,10 +51,16 @@ struct OlcEngine final : Engine {
     const int keykind = r.chance(0.7) ? 0 : 1;
     c.set_knob("keykind", keykind);
     Layout lay;
-    lay.L = keykind == 0 ? 8 : static_cast<int>(r.range(3, 12));
-    lay.p1 = static_cast<int>(r.range(0, std::min(2, lay.L - 3)));
-    lay.p2 = lay.p1 + 1 + static_cast<int>(r.range(0, std::min(3, lay.L - 3 - lay.p1)));
-    lay.p3 = lay.p2 + 1 + static_cast<int>(r.range(0, std::min(2, lay.L - 2 - lay.p2)));
+    lay.L = keykind == 0 ? 8 : static_cast<int>(r.range(2, 12));
+    if (lay.L == 2) {
+      // two-byte keys: the key ends right below the second level, so a reader that mis-counts consumed key bytes on
+      // optimistically read data would step past the end of the caller's key buffer
+      lay.p1 = 0; lay.p2 = 1; lay.p3 = 1;
+    } else {
+      lay.p1 = static_cast<int>(r.range(0, std::min(2, lay.L - 3)));
+      lay.p2 = lay.p1 + 1 + static_cast<int>(r.range(0, std::min(3, lay.L - 3 - lay.p1)));
+      lay.p3 = lay.p2 + 1 + static_cast<int>(r.range(0, std::min(2, lay.L - 2 - lay.p2)));
+    }
     // every pair of keys differs within the first 8 bytes, so every compressed path that any subset of the
     // pool can produce is <= 7 bytes: olcsim stays on representable key sets (defect D1 belongs to C01)
     if (lay.p3 > 7) lay.p3 = 7;
